@@ -183,6 +183,10 @@ def can_fault():
 def rel_to(base, path):
     if len(path) > 1:
         path = path.rstrip('/')
+    if len(base) > 1:
+        base = base.rstrip('/')
+    if base == '':
+        return path
     if path == base:
         return ''
     if path.startswith(base + '/'):
@@ -235,8 +239,11 @@ class Case:
     def __init__(self, base, tree, mode, link='F', mind='-', maxd='-', layers=()):
         self.base, self.tree, self.mode, self.link, self.mind, self.maxd, self.layers = base, tree, mode, link, mind, maxd, list(layers)
 
+    cwd = None
+
     def impl_cmd(self):
-        return 'walk %s %s %s %s %s %s' % (hx(self.base), self.mode, self.link, self.mind, self.maxd, ' '.join(self.layers))
+        head = 'walk' if self.cwd is None else 'walkcd ' + hx(self.cwd)
+        return '%s %s %s %s %s %s %s' % (head, hx(self.base), self.mode, self.link, self.mind, self.maxd, ' '.join(self.layers))
 
     def model_cmd(self):
         return 'walk %s %s %s %s %s' % (tree_text(self.tree), self.mode, self.mind, self.maxd, ' '.join(self.layers))
@@ -664,6 +671,18 @@ def c14(res, rng, tier, replay=None):
     sb = Sandbox('C14')
     try:
         cases, nodes = glob_cases(sb, rng, ntrees, 6, behaviours=True)
+        for c in cases:
+            # relative base directories: the empty path, `.`, a relative name, with `./` and a trailing separator
+            x = rng.random()
+            absolute = c.base
+            if x < 0.12 and _PREFIX.get(W.unhx(c.mode[1:]), '').strip('/'):
+                c.cwd, c.base = absolute, ''       # the empty path only names a directory once a prefix is joined to it
+            elif x < 0.24:
+                c.cwd, c.base = absolute, '.'
+            elif x < 0.34:
+                c.cwd, c.base = os.path.dirname(absolute), 'base'
+            elif x < 0.44:
+                c.cwd, c.base = os.path.dirname(absolute), './base/'
         results = run_cases(cases)
         pairs = []
         for (c, pi, pm, a, b), (node, e) in zip(results, nodes):
@@ -686,7 +705,7 @@ def c14(res, rng, tier, replay=None):
                     bad = 'matched text / candidate path is not the relative segment'
                 elif not m:
                     bad = 'the glob does not match the relative segment'
-                elif y['root'] != c.base:
+                elif (y['root'].rstrip('/') if len(y['root']) > 1 else y['root']) != (c.base.rstrip('/') if len(c.base) > 1 else c.base):
                     bad = 'the root segment is not the directory given to the walk'
                 if bad:
                     res.oracle_fail(bad, {'case': c.describe(), 'entry': y})
